@@ -228,6 +228,142 @@ fn json_case(out: &mut Out, env: &TokEnv, kind: &str, lo: usize, hi: Option<usiz
     out.count(&format!("json_{kind}"), 1);
 }
 
+
+/// object / array size bounds in the presence of declared members: `req` required and `optn` optional
+/// declared properties (all present in the document, in declaration order) followed by additional ones;
+/// for arrays `req` prefixItems followed by further items.  The size counted is the total.
+fn json_declared_case(out: &mut Out, env: &TokEnv, array: bool, req: usize, optn: usize, lo: usize, hi: Option<usize>) {
+    let mut schema = if array {
+        let pre: Vec<serde_json::Value> = (0..req).map(|_| serde_json::json!({"const": 1})).collect();
+        serde_json::json!({"type": "array", "prefixItems": pre, "items": {"const": 1}})
+    } else {
+        let mut props = serde_json::Map::new();
+        for i in 0..req {
+            props.insert(format!("r{i}"), serde_json::json!({"const": 1}));
+        }
+        for i in 0..optn {
+            props.insert(format!("o{i}"), serde_json::json!({"const": 1}));
+        }
+        let required: Vec<String> = (0..req).map(|i| format!("r{i}")).collect();
+        serde_json::json!({"type": "object", "properties": props, "required": required, "additionalProperties": {"const": 1}})
+    };
+    let (kmin, kmax) = if array { ("minItems", "maxItems") } else { ("minProperties", "maxProperties") };
+    schema[kmin] = serde_json::json!(lo);
+    if let Some(h) = hi {
+        schema[kmax] = serde_json::json!(h);
+    }
+    let max = hi.unwrap_or(lo.max(req + optn) + 3) + 3;
+    let floor = if array { 0 } else { req };
+    let want: Vec<usize> = (0..=max).filter(|&c| c >= floor && c >= lo && hi.map(|h| c <= h).unwrap_or(true)).collect();
+    let mut m = match matcher_for(env, TopLevelGrammar::from_json_schema(schema.clone())) {
+        Ok(m) => m,
+        Err(_) => {
+            // documented limitation: min/maxProperties next to optional declared properties is unsupported
+            if !want.is_empty() && (array || optn == 0) {
+                out.violation(&format!("JSON size bounds {lo}..{hi:?} with {req} required members rejected although sizes {want:?} satisfy them"), schema.to_string());
+            }
+            out.count("rejected_schemas", 1);
+            return;
+        }
+    };
+    let feed = |m: &mut Matcher, bs: &[u8]| -> bool {
+        for &b in bs {
+            if m.is_stopped() || m.consume_token(b as u32).is_err() {
+                return false;
+            }
+        }
+        true
+    };
+    let mut acc = vec![];
+    let mut ok = feed(&mut m, if array { b"[" } else { b"{" });
+    let mut c = 0;
+    while ok && c <= max {
+        let mut cl = m.deep_clone();
+        if feed(&mut cl, if array { b"]" } else { b"}" }) && cl.is_accepting().unwrap_or(false) {
+            acc.push(c);
+        }
+        if c == max {
+            break;
+        }
+        let sep = if c > 0 { "," } else { "" };
+        let item = if array {
+            format!("{sep}1")
+        } else if c < req {
+            format!("{sep}\"r{c}\":1")
+        } else if c < req + optn {
+            format!("{sep}\"o{}\":1", c - req)
+        } else {
+            format!("{sep}\"k{c}\":1")
+        };
+        ok = feed(&mut m, item.as_bytes());
+        c += 1;
+    }
+    if acc != want {
+        out.violation(
+            &format!("JSON {} bounds {lo}..{hi:?} with {req} required and {optn} optional declared members: accepted sizes {acc:?}, expected {want:?}", if array { "array" } else { "object" }),
+            schema.to_string(),
+        );
+    }
+    out.case(
+        tagged("range", vec![int(lo.max(floor)), int(hi.map(|h| h as i64).unwrap_or(-1)), int(max)]),
+        tagged("ok", vec![ints(&acc)]),
+        true,
+    );
+    out.count(if array { "json_declared_items" } else { "json_declared_props" }, 1);
+}
+
+
+/// the supported special case of min/maxProperties next to optional declared properties: closed
+/// object, "at most one", "exactly one" or "at least one" of the optional properties
+fn json_optional_props_case(out: &mut Out, env: &TokEnv, req: usize, optn: usize, lo: usize, hi: Option<usize>) {
+    let mut props = serde_json::Map::new();
+    for i in 0..req {
+        props.insert(format!("r{i}"), serde_json::json!({"const": 1}));
+    }
+    for i in 0..optn {
+        props.insert(format!("o{i}"), serde_json::json!({"const": 1}));
+    }
+    let required: Vec<String> = (0..req).map(|i| format!("r{i}")).collect();
+    let mut schema = serde_json::json!({"type": "object", "properties": props, "required": required, "additionalProperties": false, "minProperties": lo});
+    if let Some(h) = hi {
+        schema["maxProperties"] = serde_json::json!(h);
+    }
+    let m = match matcher_for(env, TopLevelGrammar::from_json_schema(schema.clone())) {
+        Ok(m) => m,
+        Err(_) => {
+            out.count("rejected_schemas", 1);
+            return;
+        }
+    };
+    let mut verdicts = vec![];
+    for sub in 0..(1u32 << optn) {
+        let mut doc = String::from("{");
+        let mut n = 0;
+        for i in 0..req {
+            doc.push_str(&format!("{}\"r{i}\":1", if n > 0 { "," } else { "" }));
+            n += 1;
+        }
+        for i in 0..optn {
+            if sub & (1 << i) != 0 {
+                doc.push_str(&format!("{}\"o{i}\":1", if n > 0 { "," } else { "" }));
+                n += 1;
+            }
+        }
+        doc.push('}');
+        let mut c = m.deep_clone();
+        let fed = doc.bytes().all(|b| !c.is_stopped() && c.consume_token(b as u32).is_ok());
+        let acc = fed && c.is_accepting().unwrap_or(false);
+        let want = n >= lo && hi.map(|h| n <= h).unwrap_or(true);
+        if acc != want {
+            out.violation(&format!("document {doc} has {n} properties: accepted = {acc}, within {lo}..{hi:?} = {want}"), schema.to_string());
+        }
+        verdicts.push(acc);
+    }
+    out.case(tagged("noop", vec![sym("optprops"), int(req), int(optn), int(lo), int(hi.map(|h| h as i64).unwrap_or(-1))]),
+             tagged("noop", vec![sym("optprops"), int(req), int(optn), int(lo), int(hi.map(|h| h as i64).unwrap_or(-1))]), true);
+    out.count("json_optional_props", 1);
+}
+
 pub fn run(_rng: &mut Rng, out: &mut Out, tier: &str) {
     let (ws, eos) = single_byte_vocab();
     let env = make_env(&ws, eos, false);
@@ -280,6 +416,31 @@ pub fn run(_rng: &mut Rng, out: &mut Out, tier: &str) {
         }
         for lo in 0..=jt {
             json_case(out, &env, kind, lo, None);
+        }
+    }
+    // size bounds next to declared members (required / optional properties, prefixItems)
+    let dt = if tier == "thorough" { 7 } else { 5 };
+    for req in 0..=3usize {
+        for optn in 1..=3usize {
+            for (lo, hi) in [(req, Some(req + 1)), (req + 1, Some(req + 1)), (req + 1, None), (0, Some(req + 1)), (req, None), (req + 2, None), (req, Some(req + 2)), (req, Some(req))] {
+                json_optional_props_case(out, &env, req, optn, lo, hi);
+            }
+        }
+        for optn in 0..=2usize {
+            for hi in 0..=dt {
+                for lo in 0..=hi {
+                    json_declared_case(out, &env, false, req, optn, lo, Some(hi));
+                    if optn == 0 {
+                        json_declared_case(out, &env, true, req, 0, lo, Some(hi));
+                    }
+                }
+            }
+            for lo in 0..=dt {
+                json_declared_case(out, &env, false, req, optn, lo, None);
+                if optn == 0 {
+                    json_declared_case(out, &env, true, req, 0, lo, None);
+                }
+            }
         }
     }
 }
